@@ -4,9 +4,13 @@ reg("C09", "differential testing vs an independent Core/BIP143/BIP341 sighash tr
     "Generated-input search: every digest the library computes (legacy, BIP143, BIP341; direct, via from_tx dispatch, with precomputed data) is compared byte for byte with an independent reference on thousands of generated (tx, index, script code, hash type, annex, extension) cases per run; refusals are compared too. Absence of a counterexample in the explored sample, not a proof.",
     "Trusted: vlib/models/sighash_ref.py (validated at start on Core's 500 sighash.json vectors, the BIP143 and BIP341 examples), hashlib.",
     "DESIGN.md §1 C09")
-_pending = ["C01","C02","C03","C04","C05","C06","C07","C08","C10","C11","C12","C13","C14","C15","C16","C17","C18","C19","C20"]
-NOT_APPLICABLE = [{"property_id": p, "reason": "check under construction in this build phase (planned in DESIGN.md); not yet claimed"} for p in _pending if p not in CHECKS]
+# properties not claimed, with a reason each (those without an explicit reason get the default below)
+NA_REASONS = {}
 reg("C01", "exhaustive enumeration of all toy curves + Hypothesis differential testing vs a naive affine group law on the 27 catalogued curves",
     "Every curve over every prime p<=23 (quick; <=43 thorough), every (a,b), every prime-order subgroup: constructor verdict equals an independent SEC 1 predicate over the brute-force point count, and mult / PreparedPoint.mult / double_mult_var equal the cyclic-group table for every scalar in [-n-1,2n+1] (plus 2^256-size ones) and every point incl. infinity - exhaustive on that finite domain. Catalogued curves, multi-scalar sums on both sides of the wNAF/Bos-Coster switch, both backends, off-curve refusals, modular helpers (every modulus<200 exhaustively; big primes of every residue class and 2-adicity) and SEC encodings are sampled by Hypothesis against the model.",
     "Trusted: vlib/models/ec_ref.py (textbook addition + double-and-add, validated on group axioms), Python pow/gcd. Cryptographic-size caller-defined curves are represented by the catalogue only.",
     "DESIGN.md §1 C01")
+reg("C02", "exhaustive toy-curve truth tables + Hypothesis differential testing vs SEC 1 / RFC 6979 / BIP66 models; structure-aware DER mutation",
+    "On toy curves every (key, challenge, nonce) triple is signed through the public API and compared with SEC 1 (signature, low-s, recovery id, recovery), and the verification verdict is compared on the complete (c,Q,r,s) table with r,s in [0,n] - exhaustive on those finite domains. On catalogued curves x 10 hash functions Hypothesis compares deterministic signatures byte for byte with an independent RFC 6979 + SEC 1 model (both backends on secp256k1), checks grinding, Signer, recovery and single-field forgeries; strict DER parsing is compared with BIP66 on canonical encodings under stacked structural mutations.",
+    "Trusted: vlib/models/ecdsa_ref.py + ec_ref.py (validated on RFC 6979 A.2.5), hashlib/hmac. bms message signatures are exercised under C10.",
+    "DESIGN.md §1 C02")
